@@ -51,6 +51,7 @@ func plans(id, tier string) (Plan, bool) {
 			jobs = append(jobs, Job{Pkg: pkgV2, Harness: "c01_sequences", Params: "t=" + t, Shards: pick(2, 8)})
 		}
 		jobs = append(jobs, Job{Pkg: pkgV2, Harness: "c01_embedded", Params: "t=0.8;history=normalize", Shards: 4})
+		jobs = append(jobs, Job{Pkg: pkgV2, Harness: "c01_embedded", Params: "t=0.8;history=queries", Shards: 8})
 		jobs = append(jobs, Job{Pkg: pkgV2, Harness: "c01_lengths", Shards: 16})
 		jobs = append(jobs, Job{Pkg: pkgV2, Harness: "c01_refrains", Shards: 16})
 		for _, t := range []string{"0.7", "0.8", "0.9"} {
@@ -89,6 +90,7 @@ func plans(id, tier string) (Plan, bool) {
 			{Pkg: pkgV2, Harness: "c03_corpus", Params: "t=0.8;families=selfrepeat;ndocs=" + fmt.Sprint(pick(120, 431)), Shards: 16},
 			{Pkg: pkgV2, Harness: "c03_corpus", Params: "t=0.8;families=deeplines,wordset,oneline;split=3;ndocs=" + fmt.Sprint(pick(100, 431)), Shards: 16},
 			{Pkg: pkgV2, Harness: "c03_corpus", Params: "t=0.8;trace=all;families=concat,scenario,edit1,periodic;ndocs=" + fmt.Sprint(pick(24, 120)), Shards: 16},
+			{Pkg: pkgV2, Harness: "c03_bigdocs", Shards: 16},
 			{Pkg: pkgV2, Harness: "c03_bytes", Shards: pick(2, 8)},
 			{Pkg: pkgV2, Harness: "c03_names", Shards: 1},
 		}}, true
@@ -419,6 +421,8 @@ func plans(id, tier string) (Plan, bool) {
 			{Pkg: pkgPQ, Harness: "c20_queue_long", Shards: 16},
 			{Pkg: pkgPQ, Harness: "c20_queues", Shards: 16},
 			{Pkg: pkgSets, Harness: "c20_stringset", Params: "family=long", Shards: 8},
+			{Pkg: pkgSets, Harness: "c20_stringset", Params: "family=histories", Shards: 8},
+			{Pkg: pkgIntSets, Harness: "c20_intset", Params: "family=histories", Shards: 8},
 			{Pkg: pkgIntSets, Harness: "c20_intset", Params: "family=long", Shards: 8},
 		}}, true
 	}
